@@ -1,6 +1,7 @@
 """Independent translation-phase 1-3 lexer for C, C++ and Objective-C (and, with
-lang='JAVA', a close-enough Java lexer).  Written from the language standards,
-not from uncrustify.
+lang='JAVA', a close-enough Java lexer; with 'CS', 'D', 'VALA' lexers for C#, D and Vala that know those
+languages' literals (verbatim / interpolated / raw strings, wysiwyg / delimited / token strings, nesting
+comments) and operators).  Written from the language standards, not from uncrustify.
 
 lex(data: bytes, lang) -> Lexed with
   .toks      list of Tok(kind, text)   kinds: id num str chr hdr punct  + markers DIR( / DIR)
@@ -34,6 +35,11 @@ P2 = ["->", "++", "--", "<<", ">>", "<=", ">=", "==", "!=", "&&", "||", "*=", "/
       "&=", "^=", "|=", "##", "::", ".*"]
 DIGRAPHS = ["%:%:", "<:", ":>", "<%", "%>", "%:"]
 JAVA3 = [">>>=", ">>>", "<<=", ">>=", "...", "->", "::"]
+
+CS_P = ["??=", ">>>=", "<<=", ">>=", ">>>", "...", "??", "?.", "=>", "->", "::", "++", "--", "<<", ">>", "<=", ">=", "==", "!=",
+        "&&", "||", "*=", "/=", "%=", "+=", "-=", "&=", "^=", "|=", ".."]
+D_P = [">>>=", "^^=", "<<=", ">>=", ">>>", "...", "^^", "~=", "..", "=>", "++", "--", "<<", ">>", "<=", ">=", "==", "!=",
+       "&&", "||", "*=", "/=", "%=", "+=", "-=", "&=", "^=", "|="]
 
 STR_PREFIX = {"u8", "u", "U", "L", "R", "u8R", "uR", "UR", "LR"}
 
@@ -74,6 +80,10 @@ def lex(data, lang="C", digraphs=False):
     cpp = lang in ("CPP", "OC+")
     objc = lang in ("OC", "OC+")
     java = lang == "JAVA"
+    cs = lang == "CS"
+    dlang = lang == "D"
+    vala = lang == "VALA"
+    nosplice = java or cs or dlang or vala     # a backslash-newline is not a line splice in these languages
     out = Lexed()
     toks = _TokList(out)
     out.toks = toks
@@ -85,7 +95,7 @@ def lex(data, lang="C", digraphs=False):
 
     def splice(i):
         # skip backslash-newline sequences
-        while i < n and s[i] == "\\":
+        while not nosplice and i < n and s[i] == "\\":
             k = _is_nl(s, i + 1) if i + 1 < n else 0
             if not k:
                 break
@@ -110,6 +120,21 @@ def lex(data, lang="C", digraphs=False):
             i += 1
             continue
         # comments
+        if dlang and s.startswith("/+", i):
+            depth, e = 1, i + 2
+            while e < n and depth:
+                if s.startswith("/+", e):
+                    depth += 1; e += 2
+                elif s.startswith("+/", e):
+                    depth -= 1; e += 2
+                else:
+                    e += 1
+            if depth:
+                out.ok = False
+            out.comments.append((len(toks), s[i:e], "block", in_dir))
+            out.comment_spans.append((i, e))
+            i = e
+            continue
         if c == "/" and i + 1 < n:
             j = splice(i + 1)
             if j < n and s[j] == "*":
@@ -165,6 +190,37 @@ def lex(data, lang="C", digraphs=False):
                 dir_state = "body"
                 prev_end = i
                 continue
+        # C# / Vala / D literals that start with a sigil or a letter
+        e2 = None
+        if cs and c in "$@":
+            e2 = _cs_string(s, i, n)
+        elif vala and c == "@" and s[i + 1:i + 2] == '"':
+            e2 = _quoted(s, i + 1, n)
+        elif vala and s.startswith('"""', i):
+            e = s.find('"""', i + 3)
+            e2 = (e + 3, True) if e >= 0 else (n, False)
+        elif cs and s.startswith('"""', i):
+            e2 = _cs_string(s, i, n)
+        elif dlang:
+            e2 = _d_string(s, i, n)
+        if e2 is not None:
+            end, good = e2
+            if not good:
+                out.ok = False
+            toks.append(Tok("str", s[i:end]))
+            out.literal_spans.append((i, end))
+            i = end
+            dir_state = "body" if in_dir else None
+            prev_end = i
+            continue
+        if cs and c == "@" and i + 1 < n and _idstart(s[i + 1]) and s[i + 1] != "$":
+            e = i + 1
+            while e < n and _idchar(s[e]):
+                e += 1
+            toks.append(Tok("id", s[i:e]))
+            i = e
+            prev_end = i
+            continue
         # identifiers / prefixed literals
         if _idstart(c) or (c == "\\" and s[i + 1:i + 2] in ("u", "U")):
             e = i
@@ -177,7 +233,7 @@ def lex(data, lang="C", digraphs=False):
                 else:
                     break
             word = s[i:e].replace("\\\n", "").replace("\\\r\n", "").replace("\\\r", "")
-            if e < n and s[e] in "\"'" and word in STR_PREFIX and not java and not (s[e] == "'" and "R" in word):
+            if e < n and s[e] in "\"'" and word in STR_PREFIX and not nosplice and not (s[e] == "'" and "R" in word):
                 if s[e] == '"' and word.endswith("R"):
                     # raw string R"delim( ... )delim"
                     p = s.find("(", e + 1)
@@ -232,6 +288,8 @@ def lex(data, lang="C", digraphs=False):
                     e += 2
                 elif ch in "eE" and s[e + 1:e + 2] in ("+", "-") and java:
                     e += 2
+                elif ch == "." and (dlang or cs) and (s[e + 1:e + 2] == "." or (s[e + 1:e + 2].isalpha() and not s[e + 1:e + 2] in "eEfFdDmM") or s[e + 1:e + 2] == "_"):
+                    break                      # '1..2' is a range, '1.foo' a member access (UFCS / extension method)
                 elif ch.isalnum() or ch == "_" or ch == ".":
                     e += 1
                 elif ch == "'" and cpp and e + 1 < n and (s[e + 1].isalnum() or s[e + 1] == "_"):
@@ -253,6 +311,8 @@ def lex(data, lang="C", digraphs=False):
                 e2, good = _quoted(s, q, n)
             if not good:
                 out.ok = False
+            if dlang and good and s[q] == '"' and s[e2:e2 + 1] in ("c", "w", "d") and not _idchar(s[e2 + 1:e2 + 2] or " "):
+                e2 += 1
             toks.append(Tok("str" if s[q] == '"' else "chr", s[i:e2]))
             out.literal_spans.append((i, e2))
             i = e2
@@ -261,6 +321,15 @@ def lex(data, lang="C", digraphs=False):
             continue
         # punctuators (max munch)
         t = None
+        if cs or vala or dlang:
+            for p in (D_P if dlang else CS_P):
+                if s.startswith(p, i):
+                    if p == "?." and s[i + 2:i + 3].isdigit():
+                        continue
+                    t = p
+                    break
+            if t is None:
+                t = c
         if java:
             for p in JAVA3:
                 if s.startswith(p, i):
@@ -315,6 +384,123 @@ def _quoted(s, q, n):
             return e, False
         e += 1
     return n, False
+
+
+def _cs_string(s, i, n):
+    """C# literal starting at s[i] with any of $ @ in front: verbatim, interpolated, raw.  -> (end, terminated) or None"""
+    j, verb, interp = i, False, 0
+    while j < n and s[j] in "$@":
+        if s[j] == "@":
+            verb = True
+        else:
+            interp += 1
+        j += 1
+    if j >= n or s[j] != '"' or j - i > 3:
+        return None
+    if s.startswith('"""', j):
+        q = 0
+        while j + q < n and s[j + q] == '"':
+            q += 1
+        e = s.find('"' * q, j + q)
+        if e < 0:
+            return n, False
+        e += q
+        while e < n and s[e] == '"':
+            e += 1
+        return e, True
+    e = j + 1
+    while e < n:
+        ch = s[e]
+        if ch == "\\" and not verb:
+            e += 2
+            continue
+        if ch == '"':
+            if verb and s[e + 1:e + 2] == '"':
+                e += 2
+                continue
+            return e + 1, True
+        if interp and ch == "{":
+            if s[e + 1:e + 2] == "{":
+                e += 2
+                continue
+            depth, e = 1, e + 1
+            while e < n and depth:
+                ch2 = s[e]
+                if ch2 in "$@\"":
+                    r = _cs_string(s, e, n) if ch2 != '"' else _cs_string(s, e, n)
+                    if r is None:
+                        e += 1
+                    else:
+                        e = r[0]
+                        if not r[1]:
+                            return n, False
+                    continue
+                if ch2 == "'":
+                    e = _quoted(s, e, n)[0]
+                    continue
+                if ch2 == "{":
+                    depth += 1
+                elif ch2 == "}":
+                    depth -= 1
+                e += 1
+            continue
+        if not verb and _is_nl(s, e):
+            return e, False
+        e += 1
+    return n, False
+
+
+D_OPEN = {"(": ")", "[": "]", "{": "}", "<": ">"}
+
+
+def _d_string(s, i, n):
+    """D literals r"..", `..`, x"..", q"(..)", q"ID ... ID", q{..}  -> (end, terminated) or None"""
+    c = s[i]
+    end = None
+    if c == "`":
+        e = s.find("`", i + 1)
+        end = (e + 1, True) if e >= 0 else (n, False)
+    elif c in "rx" and s[i + 1:i + 2] == '"':
+        e = s.find('"', i + 2)
+        end = (e + 1, True) if e >= 0 else (n, False)
+    elif c == "q" and s[i + 1:i + 2] == '"':
+        d = s[i + 2:i + 3]
+        if d in D_OPEN:
+            depth, e = 1, i + 3
+            while e < n and depth:
+                if s[e] == d:
+                    depth += 1
+                elif s[e] == D_OPEN[d]:
+                    depth -= 1
+                e += 1
+            end = (e + 1, True) if (not depth and s[e:e + 1] == '"') else (n, False)
+        elif d and (_idstart(d)):
+            e = i + 2
+            while e < n and _idchar(s[e]):
+                e += 1
+            ident = s[i + 2:e]
+            k = s.find("\n" + ident + '"', e)
+            end = (k + len(ident) + 2, True) if k >= 0 else (n, False)
+        elif d:
+            e = s.find(d + '"', i + 3)
+            end = (e + 2, True) if e >= 0 else (n, False)
+    elif c == "q" and s[i + 1:i + 2] == "{":
+        depth, e = 1, i + 2
+        while e < n and depth:
+            ch = s[e]
+            if ch in "\"`":
+                r = _d_string(s, e, n) if ch == "`" else _quoted(s, e, n)
+                e = r[0]
+                continue
+            if ch == "{":
+                depth += 1
+            elif ch == "}":
+                depth -= 1
+            e += 1
+        end = (e, True) if not depth else (n, False)
+    if end is not None and end[1] and s[end[0]:end[0] + 1] in ("c", "w", "d") and not _idchar(s[end[0] + 1:end[0] + 2] or " "):
+        end = (end[0] + 1, True)
+    return end
 
 
 def norm_tokens(lx, split_shift=False):
